@@ -64,7 +64,7 @@ impl C01 {
 }
 
 fn v(clause: &str, detail: String) -> Vec<StepViolation> {
-    vec![StepViolation { clause: clause.to_string(), detail }]
+    vec![StepViolation { clause: clause.to_string(), detail, shape: None }]
 }
 
 impl SeqModel for C01 {
